@@ -182,6 +182,10 @@ func build(work string, harness string) string {
 	}
 	instr := filepath.Join(work, "instr")
 	args := []string{"-repo", repo, "-out", instr, "-extra", filepath.Join(verif, "overlay_src")}
+	if alt := os.Getenv("VX_REPO"); alt != "" {
+		// testing only (mutants, seeded changes): read a scratch copy instead of /repo; registered checks never set this
+		args = append(args, "-src", alt)
+	}
 	if harness != "ha" {
 		args = append(args, "-noinstr")
 	}
@@ -378,9 +382,13 @@ func check(id, tier string) int {
 		"wall_s":      wall,
 		"violations":  newViol,
 	}
-	os.MkdirAll(filepath.Join(verif, "evidence"), 0o755)
+	evdir := filepath.Join(verif, "evidence")
+	if alt := os.Getenv("VX_EVIDENCE_DIR"); alt != "" {
+		evdir = alt
+	}
+	os.MkdirAll(evdir, 0o755)
 	eb, _ := json.MarshalIndent(ev, "", " ")
-	if err := os.WriteFile(filepath.Join(verif, "evidence", id+".json"), eb, 0o644); err != nil {
+	if err := os.WriteFile(filepath.Join(evdir, id+".json"), eb, 0o644); err != nil {
 		infra("%v", err)
 	}
 	fmt.Printf("%s %s: scenarios=%d executions=%d steps=%d choice-nodes=%d distinct-outcomes=%d bound<=%d exhaustive=%v known=%d violations=%d wall=%.1fs\n",
